@@ -39,39 +39,60 @@ theorem slots_ge (c : BatchCfg) (hn : 0 < c.n) (hm : 0 < c.maxbs) (hd : 0 < c.de
 theorem npad_nonneg (c : BatchCfg) (hn : 0 < c.n) (hm : 0 < c.maxbs) (hd : 0 < c.dev) : 0 ≤ npad c := by
   have := slots_ge c hn hm hd; unfold npad; omega
 
-theorem flatten_chunks {β : Type} (k : Nat) (hk : 0 < k) (xs : List β) : (chunks k xs).flatten = xs := by
-  induction xs using chunks.induct k with
-  | case1 xs h =>
-    rw [chunks, dif_pos h]
-    rcases h with h | h
-    · omega
-    · simp [h]
-  | case2 xs h ih =>
-    rw [chunks, dif_neg h]
-    simp [ih]
+theorem flatten_chunksAux {β : Type} (k : Nat) (hk : 0 < k) (fuel : Nat) (xs : List β) (h : xs.length ≤ fuel) :
+    (chunksAux k fuel xs).flatten = xs := by
+  induction fuel generalizing xs with
+  | zero =>
+    have : xs = [] := List.eq_nil_of_length_eq_zero (by omega)
+    subst this; simp [chunksAux]
+  | succ fuel ih =>
+    simp only [chunksAux]
+    split
+    · rename_i h0
+      rcases h0 with h0 | h0
+      · omega
+      · simp [List.isEmpty_iff.mp h0]
+    · rename_i h0
+      have hx : xs ≠ [] := fun e => h0 (Or.inr (by simp [e]))
+      have : 0 < xs.length := List.length_pos_iff.mpr hx
+      rw [List.flatten_cons, ih (xs.drop k) (by simp only [List.length_drop]; omega)]
+      exact List.take_append_drop k xs
+
+theorem flatten_chunks {β : Type} (k : Nat) (hk : 0 < k) (xs : List β) : (chunks k xs).flatten = xs :=
+  flatten_chunksAux k hk _ xs (Nat.le_refl _)
+
+theorem chunksAux_shape {β : Type} (k : Nat) (hk : 0 < k) (m : Nat) (fuel : Nat) (xs : List β)
+    (h : xs.length = m * k) (hf : xs.length ≤ fuel) :
+    (chunksAux k fuel xs).length = m ∧ ∀ b ∈ chunksAux k fuel xs, b.length = k := by
+  induction m generalizing xs fuel with
+  | zero =>
+    have : xs = [] := by apply List.eq_nil_of_length_eq_zero; simpa using h
+    subst this
+    cases fuel <;> simp [chunksAux]
+  | succ m ih =>
+    have hpos : 0 < xs.length := by rw [h, Nat.succ_mul]; omega
+    cases fuel with
+    | zero => omega
+    | succ fuel =>
+      have hne : ¬ (k = 0 ∨ xs.isEmpty = true) := by
+        rintro (h0 | h0)
+        · omega
+        · rw [List.isEmpty_iff.mp h0] at hpos; simp at hpos
+      simp only [chunksAux, if_neg hne]
+      have hlen : (xs.drop k).length = m * k := by
+        simp only [List.length_drop, h]; rw [Nat.succ_mul]; omega
+      obtain ⟨h1, h2⟩ := ih fuel (xs.drop k) hlen (by simp only [List.length_drop]; omega)
+      refine ⟨by simp [h1], ?_⟩
+      intro b hb
+      simp only [List.mem_cons] at hb
+      rcases hb with rfl | hb
+      · simp only [List.length_take, h]; rw [Nat.succ_mul]; omega
+      · exact h2 b hb
 
 /-- a list of length `m*k` splits into exactly `m` chunks, each of length `k` -/
 theorem chunks_shape {β : Type} (k : Nat) (hk : 0 < k) (m : Nat) (xs : List β) (h : xs.length = m * k) :
-    (chunks k xs).length = m ∧ ∀ b ∈ chunks k xs, b.length = k := by
-  induction m generalizing xs with
-  | zero =>
-    have : xs = [] := by apply List.eq_nil_of_length_eq_zero; simpa using h
-    subst this; rw [chunks, dif_pos (Or.inr rfl)]; simp
-  | succ m ih =>
-    have hne : ¬ (k = 0 ∨ xs = []) := by
-      rintro (h0 | h0)
-      · omega
-      · subst h0; simp at h; rcases h with h | h <;> omega
-    rw [chunks, dif_neg hne]
-    have hlen : (xs.drop k).length = m * k := by
-      simp only [List.length_drop, h]; rw [Nat.succ_mul]; omega
-    obtain ⟨h1, h2⟩ := ih (xs.drop k) hlen
-    refine ⟨by simp [h1], ?_⟩
-    intro b hb
-    simp only [List.mem_cons] at hb
-    rcases hb with rfl | hb
-    · simp only [List.length_take, h]; rw [Nat.succ_mul]; omega
-    · exact h2 b hb
+    (chunks k xs).length = m ∧ ∀ b ∈ chunks k xs, b.length = k :=
+  chunksAux_shape k hk m _ xs h (Nat.le_refl _)
 
 theorem flatten_map_map {β γ : Type} (f : β → γ) (r : List (List β)) :
     (r.map (List.map f)).flatten = r.flatten.map f := by
